@@ -71,6 +71,9 @@ def run(ctx):
     ctx.rule("B9", "per-transaction FSM registers (counters, sticky resp latches, done flags) are re-initialised in the reset state "
                    "or cleared in every successor of the accumulating state: nothing is inherited by the next transaction", min_sites=9)
     ctx.rule("B8", "slave read data is registered only under the slave's response (ack / valid&ready)", min_sites=4)
+    ctx.rule("B10", "bursts fully and correctly answered: the burst splitter of AXI2AXILite / AXI2Wishbone (AXIBurst2Beat) has "
+                    "registers wide enough for every AXI-legal burst (len field width, 4 KB page offsets incl. the sign, size <= 7)",
+             min_sites=5)
 
     # ================================================================ B1 / B2
     for rel, name, is_func, pairs in HOLD:
@@ -324,6 +327,9 @@ def run(ctx):
                              f"and AR valid together the acknowledged channel is not the served one; e.g. "
                              f"{B.counterexample(B.And(st, B.A(f'axi_lite.{ch}.valid'), fr), B.And(st, sf)) if fr is not None and sf is not None else ''}", 0)
 
+    # ================================================================ B10
+    from .c10 import burst2beat_widths
+    burst2beat_widths(ctx, "B10")
     # ================================================================ B9
     PERSIST = {"last_was_read": "fairness flag, persistent by design (B6)", "_last_ar_aw_n": "fairness flag, persistent by design (B6)"}
     for rel, name, is_func, _ in HOLD:
